@@ -72,6 +72,8 @@ pub enum Ty {
     /// decide optionality of a field with a codec from the spelling, and this spelling is not `Option<..>`: the field is mandatory
     /// and its `None` is an explicit null
     ParenOptBytes,
+    /// harness type `WideNil`: trait-level nil whose encoding is an ordinary value; also used as `Option<WideNil>`
+    WideNil,
 }
 
 #[derive(Clone, Debug)]
@@ -165,7 +167,7 @@ pub fn must_be_b(t: &Ty, u: &Universe) -> bool {
 }
 
 /// Can this type stand in an `Option<_>`-less field that is still "optional" (nil-capable)?
-pub fn ty_has_nil(t: &Ty) -> bool { matches!(t, Ty::NilWith | Ty::NilFns | Ty::NilOwn | Ty::OptAlias) }
+pub fn ty_has_nil(t: &Ty) -> bool { matches!(t, Ty::NilWith | Ty::NilFns | Ty::NilOwn | Ty::OptAlias | Ty::WideNil) }
 
 /// Can a value of this type encode as a bare null? Such a type must not stand directly inside an `Option<_>` field:
 /// `Some(x)` with `x` encoding as null is indistinguishable from `None` on the wire (the "Option directly in an
@@ -193,11 +195,11 @@ impl Default for GenCfg { fn default() -> Self { GenCfg { allow_lifetimes: true,
 
 fn leaf_ty(r: &mut Rng, cfg: &GenCfg) -> Ty {
     loop {
-        let t = match r.below(29) {
+        let t = match r.below(31) {
             0 => Ty::U8, 1 => Ty::U16, 2 => Ty::U32, 3 => Ty::U64, 4 => Ty::I8, 5 => Ty::I16, 6 => Ty::I32, 7 => Ty::I64,
             8 => Ty::Bool, 9 => Ty::Char, 10 => Ty::F32, 11 => Ty::F64, 12 | 13 => Ty::String, 14 => Ty::Str, 15 => Ty::CowStr,
             16 => Ty::BytesVec, 17 => Ty::BytesSlice, 18 => Ty::BytesArr4, 19 => Ty::CowBytes, 20 => Ty::ByteVec, 21 => Ty::ByteSliceRef,
-            22 => Ty::NilWith, 23 => Ty::NilFns, 24 => Ty::NilOwn, 25 => Ty::OptAlias, 26 => Ty::CowByteSlice, 27 => Ty::ParenOptBytes, _ => if r.bool_() { Ty::NilOwnDec } else { Ty::NilOwnEnc }
+            22 => Ty::NilWith, 23 => Ty::NilFns, 24 => Ty::NilOwn, 25 => Ty::OptAlias, 26 => Ty::CowByteSlice, 27 => Ty::ParenOptBytes, 28 | 29 => Ty::WideNil, _ => if r.bool_() { Ty::NilOwnDec } else { Ty::NilOwnEnc }
         };
         let lt = matches!(t, Ty::Str | Ty::CowStr | Ty::BytesSlice | Ty::CowBytes | Ty::ByteSliceRef | Ty::CowByteSlice);
         if lt && !cfg.allow_lifetimes { continue }
@@ -228,7 +230,7 @@ fn field_ty(r: &mut Rng, u: &Universe, cfg: &GenCfg, depth: usize) -> Ty {
 /// `with = minicbor::bytes` types and custom-codec types cannot be nested inside Vec/Box/Map (the codec attribute applies to the field).
 fn contains_field_level_codec(t: &Ty) -> bool {
     match t {
-        Ty::BytesVec | Ty::BytesSlice | Ty::BytesArr4 | Ty::CowBytes | Ty::NilWith | Ty::NilFns | Ty::NilOwn | Ty::OptAlias | Ty::NilOwnDec | Ty::NilOwnEnc | Ty::ParenOptBytes => true,
+        Ty::BytesVec | Ty::BytesSlice | Ty::BytesArr4 | Ty::CowBytes | Ty::NilWith | Ty::NilFns | Ty::NilOwn | Ty::OptAlias | Ty::NilOwnDec | Ty::NilOwnEnc | Ty::ParenOptBytes | Ty::WideNil => true,
         Ty::VecOf(x) | Ty::BoxOf(x) | Ty::MapU8(x) => contains_field_level_codec(x),
         _ => false
     }
@@ -272,7 +274,8 @@ fn gen_fields(r: &mut Rng, u: &Universe, cfg: &GenCfg, enc: Encoding, shape: Sha
         let mut ty = ty;
         // a type that can itself encode as null cannot be wrapped in an Option (lossy by construction)
         if all_optional && !nil_capable && can_encode_null(&ty, u) { ty = Ty::U8 }
-        let optional = !nil_capable && ty != Ty::Param && !can_encode_null(&ty, u) && (all_optional || many || r.chance(45));
+        // (`Option<WideNil>`: an optional field whose payload type has a nil value of its own - `Some(nil)` is present)
+        let optional = (!nil_capable || (ty == Ty::WideNil && r.bool_())) && ty != Ty::Param && !can_encode_null(&ty, u) && (all_optional || many || r.chance(45) || ty == Ty::WideNil);
         if all_optional && nil_capable { /* nil-capable counts as optional */ }
         if all_optional && ty == Ty::Param { ty = Ty::U8 }
         let tag = if r.chance(18) { Some(*r.pick(&TAGS)) } else { None };
